@@ -139,7 +139,7 @@ class Opaque:
 PStr = z3.DeclareSort("PStr")
 
 
-class Dec:
+class Dec(L.SymVal):
     """decimal rendering str(n) of a (symbolic) integer"""
     __slots__ = ("n",)
 
@@ -147,7 +147,7 @@ class Dec:
         self.n = n
 
 
-class OStr:
+class OStr(L.SymVal):
     """opaque string term (sort PStr), e.g. Base58Check of a rope; `sepfree`: contains no '/'"""
     __slots__ = ("t", "label")
 
@@ -156,7 +156,7 @@ class OStr:
         self.label = label
 
 
-class SStr:
+class SStr(L.SymVal):
     """string = concatenation of parts: native str | Dec | OStr"""
     __slots__ = ("parts",)
 
@@ -311,7 +311,7 @@ def model(native):
 
 def contains_sym(v, ctx=None, depth=0):
     if is_sym(v) or isinstance(v, (Ref, SStr, ModelObj, TrueDiv, BoundMeth, Opaque, L.Rope)) \
-            or type(v).__name__ in ("SymPt", "SymSeq", "BitStr", "SymList"):
+            or isinstance(v, L.SymVal):
         if isinstance(v, Rope):
             return not v.is_concrete()
         return True
@@ -1642,7 +1642,7 @@ def builtin_method(ctx, kind, name, selfv, args, kwargs):
     raise Undecided(f"{kind}.{name}")
 
 
-class HexStr:
+class HexStr(L.SymVal):
     """bytes.hex() of a symbolic rope: only bytes.fromhex / equality are understood"""
     def __init__(self, rope):
         self.rope = rope
